@@ -109,7 +109,13 @@ func (c *compressor) decompressCellblocks(b []byte) ([]byte, error) {
 		// reserve more than the rest of the stream could plausibly expand to,
 		// or a few corrupt bytes make us ask for gigabytes.
 		grow := int(uncompressedBlockLen)
-		if limit := 64 * len(b); grow > limit || grow < 0 {
+		limit := 64 * len(b)
+		if limit/64 != len(b) {
+			// (the product does not fit where int has 32 bits: reserve
+			// less, the buffer grows as chunks are decoded)
+			limit = len(b)
+		}
+		if grow > limit || grow < 0 {
 			// (negative: a length above MaxInt32 where int has 32 bits)
 			grow = limit
 		}
